@@ -110,10 +110,16 @@ def autosort(identifiers):
 
 
 @functools.lru_cache()
+def _available():
+    av = [pp.identifier for pp in PREPROCESSORS]
+    return tuple(autosort(av))
+
+
 def available():
     """Return list of available preprocessor identifiers"""
-    av = [pp.identifier for pp in PREPROCESSORS]
-    return autosort(av)
+    # Every caller gets a list of its own; editing it must not change
+    # the cached result (which is also used to validate identifiers).
+    return list(_available())
 
 
 def check_order(identifiers):
